@@ -819,6 +819,8 @@ func runC01R2(c *Ctx) {
 			}
 		}
 		c.check(n >= 1, "R2", "readAt worker copies reply data", p.Pos(ra.Pos()), fmt.Sprintf("%d copies", n), "no worker of readAt copies reply data")
+	} else {
+		c.missing("R2", "(*File).readAt")
 	}
 	if wt := p.Func("(*File).WriteTo"); wt != nil {
 		// pool := newBufPool(concurrency, chunkSize) with chunkSize == Len requested
@@ -834,6 +836,8 @@ func runC01R2(c *Ctx) {
 			}
 		})
 		c.check(good, "R2", "WriteTo pool buffer size", p.Pos(wt.Pos()), "pool buffers have the requested chunk size", "WriteTo's buffers are not sized like the chunks it requests")
+	} else {
+		c.missing("R2", "(*File).WriteTo")
 	}
 }
 
